@@ -55,8 +55,12 @@ func (d *delimiterCodec) HandleRead(ctx netty.InboundContext, message netty.Mess
 	readBuff := make([]byte, 0, 16)
 	tempBuff := make([]byte, 1)
 	for len(readBuff) < d.maxFrameLength {
-		// read 1 byte
-		n := utils.AssertLength(reader.Read(tempBuff[:]))
+		// read 1 byte: a byte delivered together with an error (io.EOF) is still
+		// part of the frame, the reader reports the error again on the next read.
+		n, err := reader.Read(tempBuff[:])
+		if n <= 0 {
+			utils.Assert(err)
+		}
 
 		// append to buffer
 		readBuff = append(readBuff, tempBuff[:n]...)
